@@ -136,6 +136,33 @@ def run(ctx, res):
     check_text(ctx, res, b'x=1\n' + c.PICO8_FUTURE_CODE2, 'ends-with-suffix', batch)
     check_text(ctx, res, c.PICO8_FUTURE_CODE1, 'ends-with-suffix', batch)
     res.sample({'text': repr(base + tail), 'compressed_len': len(c.compress_code(base + tail))})
+    # the code area as the PNG writer lays it out (":c:\\0" + two length bytes + two zero bytes + stream, 0x3d00 bytes in all): a stream
+    # that fills the area to the last byte must come back whole; one byte more must be refused, never cut off
+    from props import C04
+    from pico8.game.formatter import p8png
+    for target in ([C04.AREA - 8, C04.AREA - 7] if not ctx.thorough() else [C04.AREA - 10, C04.AREA - 9, C04.AREA - 8, C04.AREA - 7, C04.AREA - 4, C04.AREA]):
+        code = C04.tune_compressed(ctx, rng, target)
+        if code is None:
+            continue
+        res.evaluations += 1
+        res.count('code-area-limit')
+        res.nontrivial.add(('area-limit', target))
+        key = 'C05:area-limit:%d' % target
+        inp = {'code': hx(code), 'compressed_stream_bytes': target}
+        try:
+            ab = bytes(p8png.get_bytes_from_code(code))
+        except Exception as e:
+            if target <= C04.AREA - 8:
+                res.fail(key, 'a stream of %d bytes fits the code area with its 8-byte header but was refused (%r)' % (target, e), inp)
+            continue
+        if target > C04.AREA - 8:
+            res.fail(key, 'a stream of %d bytes does not fit the code area with its 8-byte header but was written (%d bytes)' % (target, len(ab)), inp)
+            continue
+        # by the format: header, the text length (big endian), two zero bytes, then the whole stream — which must decode to the text
+        stream = ab[8:]
+        if ab[:4] != b':c:\x00' or (ab[4] << 8 | ab[5]) != len(code) or len(stream) != target or refstream.ref_decode(stream) != with_suffix(c, code):
+            res.fail(key, 'the code area written for a compressed stream of %d bytes is not header + length + the complete stream '
+                          '(stream bytes present: %d; decodes to the text: %s)' % (target, len(stream), refstream.ref_decode(stream) == with_suffix(c, code)), inp)
     # decoder vs reference decoder on generated well-formed streams
     for i in range(ctx.budget(400, 8000)):
         s, out = gen_wf_stream(rng, c)
